@@ -47,6 +47,7 @@ type simCase struct {
 	Trace    []string `json:"trace"`     // observable events, in order
 	Monitor  string   `json:"monitor"`   // "" or the first violated monitor
 	Leak     bool     `json:"leak"`
+	Timed    []string `json:"timed"` // the same events with their virtual time in ms
 }
 
 func runCase(t *testing.T, c *simCase) {
@@ -154,6 +155,7 @@ func runCase(t *testing.T, c *simCase) {
 		defer mu.Unlock()
 		sort.SliceStable(evs, func(i, j int) bool { return evs[i].Seq < evs[j].Seq })
 		for _, e := range evs {
+			c.Timed = append(c.Timed, fmt.Sprintf("%d:%s:%d", e.T, e.Kind, e.K))
 			switch {
 			case e.Kind == "start":
 				c.Trace = append(c.Trace, fmt.Sprintf("start:%d:%d", e.K, b2i(e.Late)))
@@ -206,11 +208,13 @@ func monitor(c0 *simCase, evs []event, retT int64) string {
 	inflight, maxIn := 0, 0
 	lastLive := -1 // last attempt started with a live context
 	var lastLiveT int64
+	lastLiveSeq := 0
+	_ = lastLiveSeq
 	var ret *event
 	cancelT := int64(-1)
 	established := map[int]int64{}
 	closed := map[int]bool{}
-	var failT []int64
+	var failT []event // DialFunc failures (time and position in the linearised record)
 	for i := range evs {
 		e := &evs[i]
 		switch {
@@ -226,16 +230,25 @@ func monitor(c0 *simCase, evs []event, retT int64) string {
 				}
 				if lastLive >= 0 {
 					okGap := e.T >= lastLiveT+int64(c.DelayMs) || preFail(lastLive, e.K)
-					for _, ft := range failT {
-						if ft <= e.T && ft >= lastLiveT {
-							okGap = true
+					// Otherwise the feeder was woken by a failure. A wake-up is delivered only while
+					// the feeder waits in its select, i.e. after the previous hand-off (same instant
+					// allowed: the order of the collector's wake() and the worker's next receive is
+					// not observable), and each wake-up lets exactly one target through.
+					if !okGap {
+						for i := range failT {
+							f := &failT[i]
+							if !f.Late && f.T <= e.T && f.T >= lastLiveT {
+								f.Late = true // consumed
+								okGap = true
+								break
+							}
 						}
 					}
 					if !okGap {
 						return fmt.Sprintf("attempt %d started %dms after attempt %d without ConcurrencyDelay (%dms) having elapsed or an earlier failure", e.K, e.T-lastLiveT, lastLive, c.DelayMs)
 					}
 				}
-				lastLive, lastLiveT = e.K, e.T
+				lastLive, lastLiveT, lastLiveSeq = e.K, e.T, e.Seq
 			}
 			startT[e.K] = e.T
 			inflight++
@@ -253,7 +266,7 @@ func monitor(c0 *simCase, evs []event, retT int64) string {
 			if e.Kind == "finish-ok" {
 				established[e.K] = e.T
 			} else {
-				failT = append(failT, e.T)
+				failT = append(failT, *e)
 			}
 		case e.Kind == "close":
 			if _, ok := established[e.K]; !ok {
@@ -307,7 +320,10 @@ func monitor(c0 *simCase, evs []event, retT int64) string {
 		if ret.Kind == "ret-errs:" {
 			ks = nil
 		}
-		if len(ks) != c.N {
+		// once the caller has cancelled, workers may drop their errors (sendErr sees ctx.Done) and the
+		// collector may still find errChan closed first: the join is complete only without cancellation
+		// (the hypothesis of C18_errors_joined)
+		if len(ks) != c.N && !(cancelT >= 0 && cancelT <= ret.T) {
 			return fmt.Sprintf("no connection: %d errors joined for %d targets", len(ks), c.N)
 		}
 	}
